@@ -307,7 +307,7 @@ class TermBuilder:
         if r == "aggregate":
             kind = rv["agg"]
             if kind == "adt":
-                kind = "adt:" + rv["adt"] + ("::" + rv["variant"] if rv.get("vi", 0) or rv["variant"] not in rv["adt"] else "")
+                kind = "adt:" + normpath(rv["adt"]) + ("::" + rv["variant"] if rv.get("vi", 0) or rv["variant"] not in rv["adt"] else "")
             elif kind == "closure":
                 kind = "closure:" + rv["def"]
             return ("agg", kind, tuple(op(o) for o in rv["ops"]))
